@@ -97,3 +97,10 @@ Proof. exact fresh_suffix_names_no_existing_symbol. Qed.
 Theorem C13_suffixes_of_different_patches_differ : forall label j k,
   append label (patch_suffix j) = append label (patch_suffix k) -> j = k.
 Proof. exact suffixes_differ. Qed.
+
+(* one context after another over one module: once a label of patch j of the first context is a symbol of the module, every number
+   the second context hands out is above j, and its labels name no symbol of the module (the first context's included) *)
+Theorem C13_contexts_over_one_module_do_not_collide : forall names label1 label2 j k,
+  let names' := (names ++ [append label1 (patch_suffix j)])%list in
+  (last_used_patch_id names' < k)%nat -> (j < k)%nat /\ ~ In (append label2 (patch_suffix k)) names'.
+Proof. exact contexts_do_not_collide. Qed.
